@@ -34,7 +34,7 @@ CLAIMED["C17"] = dict(
     level="fault_enumeration",
     design="DESIGN.md 4 (C17)",
     technique="deterministic simulation with fault injection: truncation at every byte, bit flips, read error after k bytes on a simulated input endpoint under the real codec/sniffer/reader stack; outcome classification fatal vs silent acceptance",
-    text="Every truncation point, one or all bit flips per byte and a read error after every k bytes are injected into gzip, bzip2, xz and zstd images of FASTA/FASTQ files (exhaustively on 8 small images, sampled on generated files of all four formats), under the real Buf / sniffer / Read* stack and a seeded scheduler; the run must end in a fatal, a crash or a returned error, or - for a bit flip only - deliver every record unchanged. Violations are split by whether the decompression library itself notices the damage.",
+    text="Every truncation point, one or all bit flips per byte and a read error after every k bytes (arriving alone or in the same Read as the last bytes) are injected into gzip, bzip2, xz and zstd images of FASTA/FASTQ files (exhaustively on 8 small images, sampled on generated files of all four formats), under the real Buf / sniffer / Read* stack and a seeded scheduler; the run must end in a fatal, a crash or a returned error, or - for a bit flip only - deliver every record unchanged. Violations are split by whether the decompression library itself notices the damage.",
     note="Trusted: SimReader fault model; the harness transcribes the 12-line format dispatch of ReadSequencesFromFile for the library stage. Third-party decoders that return a clean EOF on some truncations or flips are recorded as known findings (decoder-silent classes). The command stage adds truncated / flipped files through the sniffer, through an explicit --fasta/--fastq format and through fd 0 (kseq), and real read(2) errors on fd 0 (a directory, a reset socket).",
 )
 
